@@ -12,7 +12,7 @@ and gives, as the crate does on it: the essence `type/subtype` in lower case, th
 lower-cased names (and a lower-cased value for `charset`), and the stored source text (`as_ref()`,
 what `try_into_header_value` writes): the input with type, subtype, parameter names and charset
 values lower-cased, separators untouched. Everything else is answered UNMODELLED by the driver.
-No theorem is stated about this part (correspondence only).
+Theorems: `S3V.Props.C14ContentType` (parse denotes; the written text denotes the same value).
 -/
 namespace S3V.Dto.ContentType
 
